@@ -54,6 +54,28 @@ def ism_case(case, ctx):
     if args:
         kw["args"] = args
 
+    if case.get("end_past"):
+        # a window that runs past the sequence end cannot be honoured: there is no position p >= L to mutate
+        ctx.nt()
+        ctx.label("window_past_end")
+        kw2 = dict(kw)
+        kw2["end"] = L + case["end_past"]
+        try:
+            out = saturation_mutagenesis(model, X, raw_outputs=True, **kw2)
+        except Exception:  # noqa: BLE001
+            return
+        raise Violation("ism-window-past-end-accepted", "L=%d start=%d end=%d returned %s" % (
+            L, start, L + case["end_past"], [tuple(t.shape) for t in (out[1] if isinstance(out[1], (list, tuple)) else [out[1]])]))
+    if case.get("pre_alphabet") and A > 2:
+        # the same window was scanned before on sequences over a smaller alphabet
+        A0 = A - 1
+        m0 = ExactNet(A0, L, outs, n_args=len(case.get("args", [])), seed=case["seed"] + 1, container=case["container"])
+        X0 = gen.encode_batch(["".join(alpha[min(alpha.index(c), A0 - 1)] for c in s_) for s_ in seqs], alpha[:A0], X.dtype)
+        try:
+            saturation_mutagenesis(m0, X0, raw_outputs=True, **kw)
+        except Exception:  # noqa: BLE001
+            pass
+        ctx.label("after_scan_with_smaller_alphabet")
     # oracle
     M = _mutants(X, start, end)                                   # (B, A, W, A, L)
     flat = M.reshape(B * A * W, A, L)
@@ -140,13 +162,16 @@ def strategy(draw):
         for _ in range(nargs):
             width = draw(st.integers(1, 3))
             case["args"].append([[draw(st.integers(0, 9)) for _ in range(width)] for _ in range(B)])
+    if end is not None and draw(st.integers(0, 9)) == 0:
+        case["end_past"] = draw(st.integers(1, 4))
+    case["pre_alphabet"] = draw(st.integers(0, 3)) == 0
     if mode != "raw":
         T = outputs[0][0]
         t = draw(st.integers(0, 2))
         if t == 0:
             case["target"] = None
         elif t == 1:
-            case["target"] = draw(st.integers(0, T - 1))
+            case["target"] = draw(st.integers(-T, T - 1))          # negative targets index from the end, as everywhere in torch
         else:
             a = draw(st.integers(0, T - 1))
             case["target"] = [a, draw(st.integers(a + 1, T))]
